@@ -310,6 +310,9 @@ def run(ctx):
     ctx.assume("a read or write with A10=1 auto-precharges its bank in the reference (a later ACT without PRE is legal)")
     ctx.assume("tiny geometry (2-4 banks, 4 rows, 16 columns; address bus kept at 11 bits for A10), read pipeline shortened; "
                "trace benches start from zeroed memory; refresh/MRS/ZQ commands allowed while all banks are precharged (no-ops for data)")
+    ctx.assume("abstracted benches (widecol_*, fullrow_*, abs_*): each bank memory keeps only the word of the watched location, models "
+               "are replayed on the real memories; fullrow_sdr_1_1_r11 (rowbits == addressbits == 11) assumes the WATCHED row is in the "
+               "lower half of the row space (accessed rows are free) so that row-aliasing counterexamples replay")
     ctx.assume("init-image clause: the real __prepare_bank_init_data is executed on injective images (several sizes incl. partial "
                "and multi-bank); the layout query quantifies over every word address of the small memory")
     for n, (kw, kq, kt, tiers) in CONFIGS.items():
